@@ -37,6 +37,8 @@ pub enum QOp {
 pub enum Case {
     Queue { disk: bool, ops: Vec<QOp> },
     Restart { w: WCase, running: u8, clean: bool },
+    /// the real daemon stopped with work queued (or marked as running) and started again, see `c09d.rs`
+    DaemonRestart(super::c09d::DCase),
 }
 
 #[derive(Clone, Debug, PartialEq)]
@@ -522,9 +524,20 @@ impl Prop for C09 {
             Tier::Thorough => (5..120, 4..40),
         };
         let w = Weights { check: 0, quiesce: 2, pump: 10, publisher: 0, restart: 1, ca_delete: 1, overlap: 10, foreign: 6, max_advance: 2 * 86400, ..Weights::default() };
+        let dop = || {
+            use super::c09d::DOp;
+            prop_oneof![
+                6 => (0u8..8).prop_map(|slot| DOp::RoaAdd { slot }),
+                2 => (0u8..8).prop_map(|slot| DOp::RoaRemove { slot }),
+                2 => vec(1u8..7, 1..3).prop_map(|providers| DOp::Aspa { providers }),
+                1 => Just(DOp::KeyrollInit),
+                1 => Just(DOp::Settle),
+            ]
+        };
         prop_oneof![
-            3 => (any::<bool>(), vec(qop(), qn)).prop_map(|(disk, ops)| Case::Queue { disk, ops }),
-            1 => (wcase_strategy(cfg_strategy(Just(true).boxed(), false), w, 4, wn), 0u8..4, prop_oneof![1 => Just(true), 3 => Just(false)])
+            2 => (any::<u16>(), vec(dop(), 1..6), 0u8..4, vec(dop(), 0..4)).prop_map(|(key_start, before, running, after)| Case::DaemonRestart(super::c09d::DCase { key_start, before, running, after })),
+            90 => (any::<bool>(), vec(qop(), qn)).prop_map(|(disk, ops)| Case::Queue { disk, ops }),
+            30 => (wcase_strategy(cfg_strategy(Just(true).boxed(), false), w, 4, wn), 0u8..4, prop_oneof![1 => Just(true), 3 => Just(false)])
                 .prop_map(|(w, running, clean)| Case::Restart { w, running, clean }),
         ]
         .boxed()
@@ -534,6 +547,7 @@ impl Prop for C09 {
         match case {
             Case::Queue { disk, ops } => run_queue(*disk, ops),
             Case::Restart { w, running, clean } => run_restart(w, *running, *clean),
+            Case::DaemonRestart(c) => super::c09d::run_daemon_restart(c),
         }
     }
 
@@ -541,6 +555,7 @@ impl Prop for C09 {
         match case {
             Case::Queue { disk, ops } => serde_json::json!({"queue": {"disk": disk, "ops": ops.iter().map(|o| format!("{o:?}")).collect::<Vec<_>>()}}),
             Case::Restart { w, running, clean } => serde_json::json!({"restart": {"running_at_stop": running, "clean": clean, "ops": w.ops.iter().map(|o: &Op| o.short()).collect::<Vec<_>>()}}),
+            Case::DaemonRestart(c) => serde_json::json!({"daemon_restart": {"before": c.before.iter().map(|o| format!("{o:?}")).collect::<Vec<_>>(), "left_running": c.running, "after": c.after.iter().map(|o| format!("{o:?}")).collect::<Vec<_>>()}}),
         }
     }
 }
